@@ -84,6 +84,20 @@ def _fmt(edges):
 
 
 # ---------------------------------------------------------------- redirect_tree
+def renumber(tree, perm):
+    """the same tree with node i stored at position perm[i] (ids = positions again, tags re-issued per position)"""
+    from swcgeom.core import Tree
+
+    n = tree.number_of_nodes()
+    inv = [0] * n
+    for i, q in enumerate(perm):
+        inv[q] = i
+    cols = {k: np.asarray(tree.get_ndata(k))[inv].copy() for k in tree.keys() if k not in ("id", "pid", "tag")}
+    old_pid = [int(v) for v in tree.pid()]
+    pid = [(-1 if old_pid[inv[q]] < 0 else perm[old_pid[inv[q]]]) for q in range(n)]
+    return Tree(n, id=np.arange(n, dtype=np.int32), pid=np.array(pid, dtype=np.int32), tag=100.0 + np.arange(n), **cols)
+
+
 def check_redirect(ctx, spec):
     from swcgeom.core import Tree, redirect_tree
 
@@ -92,6 +106,10 @@ def check_redirect(ctx, spec):
     n, new_root, sort = len(pid), int(spec["new_root"]), bool(spec["sort"])
     V = lambda clause, obs, exp: ctx.violation(carrier, clause, spec, obs, exp, spec)  # noqa: E731
     tree = build(pid, 1)
+    if spec.get("perm") is not None:
+        # any numbering: node i of the sorted table becomes node perm[i] (the root sits anywhere, parents need not precede their children)
+        tree = renumber(tree, [int(v) for v in spec["perm"]])
+        pid = [int(v) for v in tree.pid()]
     if spec.get("first") is not None:
         # two-step history: the input is itself a re-rooted tree kept unsorted (its root is NOT node 0)
         tree = redirect_tree(tree, int(spec["first"]), sort=False)
@@ -275,6 +293,19 @@ def run(ctx):
                 for first in range(1, n):
                     for new_root in range(n):
                         check_redirect(lim, dict(pid=list(pid), first=first, new_root=new_root, sort=bool((first + new_root) % 2)))
+    # every numbering: all relabellings of every tree <= 4 (thorough 5) nodes -- the root at any position, children before parents allowed
+    import itertools
+
+    nperm = 5 if thorough else 4
+    for n in range(2, nperm + 1):
+        for pid in sorted_parent_tables(n):
+            for perm in itertools.permutations(range(n)):
+                if list(perm) == list(range(n)):
+                    continue
+                for new_root in range(n):
+                    for sort in (True, False):
+                        check_redirect(lim, dict(pid=list(pid), perm=list(perm), new_root=new_root, sort=sort))
+    ctx.rule(f"redirect_tree on every numbering: every relabelling (all n! permutations of the node positions) of every tree <= {nperm} nodes x every new root x sort on/off", exhaustive=True)
     t1s = [list(p) for n in range(1, na + 1) for p in sorted_parent_tables(n)]
     t2s = [list(p) for n in range(1, nb + 1) for p in sorted_parent_tables(n)]
     for p1 in t1s:
